@@ -14,6 +14,7 @@ func (f *frame) callContract(st *State, ins *ssa.Call, callee *ssa.Function, con
 	ex := f.ex
 	pre := st.clone()
 	env := f.specEnvCall(callee, st, pre, args, free, nil)
+	env.callPre = pre
 	ord := "call.pre[?]"
 	if ins != nil {
 		ord = f.ord("call.pre", ins)
@@ -49,6 +50,15 @@ func (f *frame) callContract(st *State, ins *ssa.Call, callee *ssa.Function, con
 	}
 	// havoc the callee's frame
 	f.callFrame(st, pre, callee, con, env)
+	{
+		at := map[string]*types.Named{}
+		ex.prog.allocTypes(callee, map[*ssa.Function]bool{}, at)
+		if len(at) > 0 {
+			fr := ex.decls.fresh("frontier_call", SInt)
+			st.assume(tLe(ex.frontierOf(pre), fr))
+			st.frontier = fr
+		}
+	}
 	for _, a := range con.Assigns {
 		f.havocLvalue(st, env, a, callee)
 	}
@@ -93,10 +103,17 @@ func (f *frame) callContract(st *State, ins *ssa.Call, callee *ssa.Function, con
 	if env2.vars == nil {
 		env2.vars = map[string]Val{}
 	}
-	env2.freshExcl = pre.fresh
-	env2.collectFresh = &st.fresh
+	env2.callPre = pre
 	for _, c := range con.Ensures {
-		st.assume(env2.evalBool(c.E))
+		func() {
+			defer func() {
+				if r := recover(); r != nil {
+					// a clause about the callee's internal ghost state cannot be used by the caller
+					ex.note(fmt.Sprintf("clause of %s not usable at call site: %v", con.Key, r))
+				}
+			}()
+			st.assume(env2.evalBool(c.E))
+		}()
 	}
 	for _, c := range con.Defines {
 		st.assume(env2.evalBool(c.E))
@@ -149,6 +166,14 @@ func (f *frame) havocLvalue(st *State, env *specEnv, a Expr, callee *ssa.Functio
 			return
 		case "ghost":
 			name := n.Args[0].(*EIdent).Name
+			if sort, ok := ex.prog.spec.GhostVars[name]; ok {
+				if sort == SBool {
+					st.ghost[name] = VBool{ex.decls.fresh("gv_"+name, SBool)}
+				} else {
+					st.ghost[name] = VInt{ex.decls.fresh("gv_"+name, SInt)}
+				}
+				return
+			}
 			delete(st.ghost, name)
 			return
 		case "allfields":
@@ -180,6 +205,9 @@ func (f *frame) havocLvalue(st *State, env *specEnv, a Expr, callee *ssa.Functio
 // its assigns clause or a freshly allocated object.
 func (f *frame) frameCheckStore(st *State, n *types.Named, field int, ref T, ins ssa.Instruction) {
 	ex := f.ex
+	if ex.initMode {
+		return // package initialisation starts from the empty heap: every object is new
+	}
 	top := f
 	for top.inlined && top.caller != nil {
 		top = top.caller
@@ -233,7 +261,90 @@ func (f *frame) heldAtEntry() string {
 
 func (f *frame) lockAccess(st *State, b VRef, x *ssa.FieldAddr) {}
 
-func (f *frame) lockAppend(st *State, ins *ssa.Call, s, e VSlice) {}
+// heldNow: the lock state on this path (none, R, W).
+func (f *frame) heldNow(st *State) string {
+	if g, ok := st.ghost["held"]; ok {
+		return g.(VOpaque).T
+	}
+	top := f
+	for top.caller != nil {
+		top = top.caller
+	}
+	return top.heldAtEntry()
+}
+
+// guardedAccess: C06 lock discipline. A field declared `guarded` may be read only with the lock
+// held (R or W) and written only with W held, unless the object was allocated in this call and
+// is not yet published. A write must also happen in the critical section in which the field was
+// last read on this path (no read - unlock - lock - write: lost updates).
+func (f *frame) guardedAccess(st *State, n *types.Named, field int, ref T, write bool, ins ssa.Instruction) {
+	ex := f.ex
+	if !ex.mode.Functional || ins == nil || ex.initMode {
+		return // during package initialisation nothing is published yet
+	}
+	u := n.Underlying().(*types.Struct)
+	key := namedKey(n) + "." + u.Field(field).Name()
+	if _, ok := ex.prog.spec.Guarded[key]; !ok {
+		return
+	}
+	held := f.heldNow(st)
+	freshObj := tLt(ex.heapTop(), ref)
+	epoch := 0
+	if g, ok := st.ghost["lock_epoch"]; ok {
+		fmt.Sscan(g.(VOpaque).T, &epoch)
+	}
+	if !write {
+		goal := freshObj
+		if held == "R" || held == "W" {
+			goal = "true"
+		}
+		f.ob(st, f.ord("lock.read", ins), ins.Pos(), goal, fmt.Sprintf("read of guarded field %s with the lock held (state %s) or on an unpublished object", key, held))
+		st.ghost["guard_read:"+key] = VOpaque{T: fmt.Sprint(epoch)}
+		return
+	}
+	goal := freshObj
+	if held == "W" {
+		goal = "true"
+	}
+	f.ob(st, f.ord("lock.write", ins), ins.Pos(), goal, fmt.Sprintf("write of guarded field %s with the write lock held (state %s) or on an unpublished object", key, held))
+	if g, ok := st.ghost["guard_read:"+key]; ok {
+		re := 0
+		fmt.Sscan(g.(VOpaque).T, &re)
+		ag := "true"
+		if re != epoch {
+			ag = freshObj
+		}
+		f.ob(st, f.ord("lock.atomic", ins), ins.Pos(), ag, fmt.Sprintf("guarded field %s is written in the critical section in which it was read (read-modify-write is atomic)", key))
+	}
+}
+
+// lockAppend: append(s, ...) writes into s's backing array when len < cap. If that array is
+// shared memory (not allocated in this call), the in-place case needs the write lock.
+func (f *frame) lockAppend(st *State, ins *ssa.Call, s, e VSlice) {
+	ex := f.ex
+	if !ex.mode.Functional || ins == nil || ex.initMode {
+		return
+	}
+	if !s.R.strict || s.R.fresh {
+		return
+	}
+	if len(ex.prog.spec.Guarded) == 0 {
+		return
+	}
+	top := f
+	for top.caller != nil {
+		top = top.caller
+	}
+	if top.fn.Pkg == nil || top.fn.Pkg.Pkg.Name() != "mimetype" {
+		return
+	}
+	held := f.heldNow(st)
+	goal := tOr(tEq(s.Len, s.Cap), tEq(e.Len, "0"))
+	if held == "W" {
+		goal = "true"
+	}
+	f.ob(st, f.ord("lock.append", ins), ins.Pos(), goal, "append to shared memory does not write in place (len == cap) unless the write lock is held (state "+held+")")
+}
 
 // ---------------------------------------------------------------------------
 
@@ -477,11 +588,7 @@ func (f *frame) callFrame(st *State, pre *State, callee *ssa.Function, con *Cont
 				continue
 			}
 			q := "cf_" + sanitize(arr[0])
-			exists := []T{tAnd(tLt("0", q), tLe(q, ex.heapTop()))}
-			for _, fr := range pre.fresh {
-				exists = append(exists, tEq(q, fr))
-			}
-			cond := []T{tOr(exists...)}
+			cond := []T{tAnd(tLt("0", q), tLe(q, ex.frontierOf(pre)))}
 			for _, e := range exc {
 				cond = append(cond, tNe(q, e))
 			}
